@@ -36,12 +36,18 @@ class Monitor:
         self.calls = collections.Counter()
         self.failures = []
         self.fail_counts = collections.Counter()
+        self.class_counts = collections.Counter()
         self.enabled = True
         self.keep_per_obligation = 3
 
     def record(self, obligation, what, input, cls=None):
+        """Keep up to `keep_per_obligation` failures per (obligation, failure class): the class is the
+        `cls` dict when given, else the leading words of the message - so that many failures of one
+        kind cannot mask a different kind under the same clause."""
         self.fail_counts[obligation] += 1
-        if self.fail_counts[obligation] <= self.keep_per_obligation:
+        key = (obligation, _class_key(what, cls))
+        self.class_counts[key] += 1
+        if self.class_counts[key] <= self.keep_per_obligation and len(self.failures) < 400:
             self.failures.append(Failure(obligation, what, input, cls))
 
     def check(self, obligation, ok, what=None, input=None, cls=None):
@@ -62,8 +68,9 @@ class Monitor:
         for ob, n in other["fail_counts"].items():
             self.fail_counts[ob] += n
         for f in other["failures"]:
-            have = sum(1 for g in self.failures if g.obligation == f["obligation"])
-            if have < self.keep_per_obligation:
+            key = (f["obligation"], _class_key(f["what"], f["cls"]))
+            self.class_counts[key] += 1
+            if self.class_counts[key] <= self.keep_per_obligation and len(self.failures) < 400:
                 self.failures.append(Failure(f["obligation"], f["what"], f["input"], f["cls"]))
 
     def dump(self):
@@ -72,6 +79,15 @@ class Monitor:
             "fail_counts": dict(self.fail_counts),
             "failures": [{"obligation": f.obligation, "what": f.what, "input": f.input, "cls": f.cls} for f in self.failures],
         }
+
+
+def _class_key(what, cls):
+    if cls:
+        try:
+            return repr(sorted((str(k), repr(v)) for k, v in cls.items()))
+        except Exception:
+            pass
+    return " ".join(str(what).split()[:4])
 
 
 MON = Monitor()
